@@ -26,3 +26,13 @@ package sorter
 //@   props C01
 //@   requires f != nil
 //@   loop 1 invariant r != nil && !r.TrimLeadingSpace && !r.LazyQuotes && r.Comment == 0
+
+// The duplicate test of the output stage: a row is emitted when there is no previous row or its key differs from the
+// previous key in some cell; the previous key is then replaced. (The first row is never taken for a duplicate, whatever
+// its key: an all-empty key used to be.)
+//@ func pkIsDifferent
+//@   props C01 C19
+//@   requires hasPrev != nil && len(prevPK) == len(pk) && (len(pk) == 0 || reg(pk) != reg(prevPK))
+//@   modifies prevPK[:], *hasPrev
+//@   ensures [C01] result <==> (!old(*hasPrev) || exists(k, 0, len(pk), pk[k] != old(prevPK[k])))
+//@   ensures [C01] *hasPrev && (result ==> forall(k, 0, len(pk), prevPK[k] == pk[k]))
